@@ -80,10 +80,12 @@ def answer (fn : String) (bytes : List UInt8) (a1 a2 : Option Nat) : String :=
   | "findheader" =>
     showLoop (fun r => s!"found={r.sev} ") (findHeaderSectionWith C05.skipInstanceSkipsComments C05.readCommentIters C05.findHeaderGetlineN C05.findHeaderExit fuel (IS.ofBytes bytes))
   | "readdata1" =>
-    showData (readData1 ⟨fun _ => false, knownC05a, fun _ => false⟩ id C05.skipInstanceSkipsComments false C05.readCommentIters
+    showData (readData1 ⟨fun _ => false, knownC05a, fun _ => false⟩ C05.entNmArrGuard C05.skipInstanceSkipsComments false C05.readCommentIters
       C05.maxErrorCount fuel (IS.ofBytes bytes))
+  | "subsuperb" =>
+    showLoop (fun _ => "") (createSubSuper C05.entNmArrGuard fuel (IS.ofBytes bytes))
   | "readdata1w" =>
-    showData (readData1 ⟨fun _ => false, knownC05a, fun _ => false⟩ id C05.skipInstanceSkipsComments true C05.readCommentIters
+    showData (readData1 ⟨fun _ => false, knownC05a, fun _ => false⟩ C05.entNmArrGuard C05.skipInstanceSkipsComments true C05.readCommentIters
       C05.maxErrorCount fuel (IS.ofBytes bytes))
   | "recover" => showLoop (fun r => s!"len={r.len} ") (recoveryScan fuel (IS.ofBytes bytes) (UInt8.ofNat n))
   | "exportlist" => showLoop (fun _ => "") (exportLoop C05.exportLoopChecksStreamCreate C05.skipInstanceSkipsComments C05.readCommentIters fuel (IS.ofBytes bytes) chComma 0)
